@@ -14,6 +14,7 @@ import PotasscoVerif.Drv.TheoryData
 import PotasscoVerif.Drv.ValueStore
 import PotasscoVerif.Drv.Options
 import PotasscoVerif.Drv.OptAssign
+import PotasscoVerif.Drv.OptFormat
 open PotasscoVerif.Drv
 
 def dispatch (line : String) : String :=
@@ -35,6 +36,7 @@ def dispatch (line : String) : String :=
   | "rc" :: args => runRC args
   | "op" :: args => runOP args
   | "oa" :: args => runOA args
+  | "of" :: args => runOF args
   | _ => "bad-component"
 
 partial def loop (h : IO.FS.Stream) (out : IO.FS.Stream) : IO Unit := do
